@@ -93,6 +93,17 @@ void *worker(void *arg) {
     for (int i = 0; i < g.c.N; i++) { noise(st); o.push_back(g.c.width == 'i' ? (long)p_atomic_int_add(&g.word, 1) : (long)p_atomic_pointer_add((void *)&g.pword, 1)); }
   } else if (k == "countdown") {
     for (int i = 0; i < g.c.N; i++) { noise(st); if (p_atomic_int_dec_and_test(&g.word)) g.trues++; }
+  } else if (k == "zerorace") {
+    // every round the word starts at T and every thread decrements once: exactly one dec_and_test may return TRUE per round
+    for (int i = 0; i < g.c.N; i++) {
+      if (ti == 0) { p_atomic_int_set(&g.word, (pint)g.c.T); g.trues = 0; }
+      g.spin_arrive.fetch_add(1); while (g.spin_arrive.load() < (long)g.c.T * (3 * i + 1)) {}
+      if (p_atomic_int_dec_and_test(&g.word)) g.trues++;
+      g.spin_arrive.fetch_add(1); while (g.spin_arrive.load() < (long)g.c.T * (3 * i + 2)) {}
+      if (ti == 0 && g.trues != 1) { set_error("dec_and_test returned TRUE " + std::to_string(g.trues.load()) + " times in one countdown of " + std::to_string(g.c.T) + " to zero (round " + std::to_string(i) + "): exactly the decrement that reaches zero must report TRUE"); }
+      g.spin_arrive.fetch_add(1); while (g.spin_arrive.load() < (long)g.c.T * (3 * i + 3)) {}
+      if (!g.error.empty()) break;
+    }
   } else if (k == "casloop") {
     for (int i = 0; i < g.c.N; i++) {
       noise(st);
@@ -164,6 +175,7 @@ Outcome run_case(const Case &c) {
     if (fin != total) fail("ticket", "final value " + std::to_string(fin) + " != number of increments " + std::to_string(total));
     // interleaving measure: some thread's tickets are not one contiguous block
     for (auto &v : g.olds) if (!v.empty() && v.back() - v.front() + 1 != (long)v.size()) o.nontrivial = true;
+  } else if (c.kind == "zerorace") { o.nontrivial = T >= 2;
   } else if (c.kind == "countdown") {
     if (g.trues != 1) fail("countdown", "dec_and_test returned TRUE " + std::to_string(g.trues.load()) + " times for a countdown to zero (expected exactly once)");
     if (g.word != 0) fail("countdown", "final value not 0");
@@ -203,6 +215,7 @@ rc::Gen<Case> genCase(bool tsan, bool thorough) {
                     Case c; c.kind = std::get<0>(t); c.T = std::get<1>(t); c.N = std::get<2>(t) * scale; c.lock = std::get<3>(t); c.noise = (unsigned)std::get<4>(t); c.width = std::get<5>(t);
                     if (c.kind == "mp") c.N = std::min(c.N, 3000);
                     if (c.kind.rfind("sb", 0) == 0) { c.N = tsan ? 2000 : 300000; c.T = 2; }
+                    if (c.kind == "zerorace") { c.N = tsan ? 3000 : 60000; c.T = std::min(c.T, 6); }
                     if (c.kind == "trylockrec") c.N = std::min(c.N, 3000);
                     return c; });
 }
